@@ -192,8 +192,8 @@ class P(Prop):
         rng = random.Random(seed * 7919 + 17)
         failures = []
         n_fresh = 10 if tier == "quick" else 120
-        n_cli = 6 if tier == "quick" else 60
-        hashseeds = ["0", "1", "2", str(rng.randint(3, 4000000))] + (["7", "11", "123", "999"] if tier == "thorough" else [])
+        n_cli = 8 if tier == "quick" else 60
+        hashseeds = ["0", "1", "2", "3", str(rng.randint(4, 4000000))] + (["7", "11", "123", "999"] if tier == "thorough" else [])
         # (1) fresh-process reference
         lib.setup_impl_path()
         jobs = []
